@@ -147,305 +147,4 @@ theorem occ_eq_qcount {c : Cfg} {s : State} (hi : Inv c s) {id : Nat} {o : Op} (
   · have := other .rd (by rw [hdir]; simp)
     simp only [FdQ.sel] at this ⊢; omega
 
-theorem inv_flag {c : Cfg} {s : State} (hi : Inv c s) (id : Nat) :
-    Inv c { s with ops := modAt (fun o => { o with cancelled := true }) s.ops id } :=
-  inv_modAt hi id _ rfl rfl rfl rfl rfl rfl rfl
-    (keeps_congr (fun _ => rfl) (fun _ => rfl) (fun _ => rfl) (fun _ => rfl) (fun _ => rfl) (fun _ => rfl))
-    (fun _ _ ok => ok.congr rfl rfl rfl rfl rfl rfl rfl rfl rfl rfl rfl rfl rfl rfl)
-
-theorem inv_iourCancel {c : Cfg} {s : State} (hi : Inv c s) (id : Nat) : Inv c (iourCancel s id) := by
-  unfold iourCancel
-  split
-  · exact inv_modAt hi id _ rfl rfl rfl rfl rfl rfl rfl
-      (keeps_congr (fun _ => rfl) (fun _ => rfl) (fun _ => rfl) (fun _ => rfl) (fun _ => rfl) (fun _ => rfl))
-      (fun _ _ ok => ok.congr rfl rfl rfl rfl rfl rfl rfl rfl rfl rfl rfl rfl rfl rfl)
-  · exact inv_modAt hi id _ rfl rfl rfl rfl rfl rfl rfl
-      (keeps_congr (fun _ => rfl) (fun _ => rfl) (fun _ => rfl) (fun _ => rfl) (fun _ => rfl) (fun _ => rfl))
-      (fun _ _ ok => ok.congr rfl rfl rfl rfl rfl rfl rfl rfl rfl rfl rfl rfl rfl rfl)
-
-theorem inv_pollCancel {c : Cfg} {s : State} (hi : Inv c s) (ha : s.alive = true) {id : Nat} {o o' : Op}
-    (ho : s.ops[id]? = some o') (hfd : o.fd = o'.fd) (hrc : 0 < o'.rc) : Inv c (pollCancel s id o) := by
-  unfold pollCancel
-  split
-  · exact hi
-  · have hid := (hi.ops id o' ho).2
-    refine inv_modAt_reg hi ha id _ rfl rfl rfl rfl rfl rfl (fun _ => ⟨rfl, rfl, rfl⟩) ?_ ?_ ?_ ?_
-    · intro j x hj hx
-      have hxid := (hi.ops j x hx).2
-      unfold qcount
-      by_cases hf : x.fd = o.fd
-      · simp only [hf, upd_same, FdQ.sel_remove, count_filter_ne, hxid, hj, if_false]
-      · simp only [upd_other _ _ _ _ hf]
-    · intro fd d i hm
-      by_cases hf : fd = o.fd
-      · subst hf
-        simp only [upd_same, FdQ.sel_remove] at hm
-        exact (mem_filter_ne.mp hm).1
-      · simpa only [upd_other _ _ _ _ hf] using hm
-    · intro hd fd
-      by_cases hf : fd = o.fd
-      · subst hf
-        simp [upd_same, hi.iour_reg hd, FdQ.remove, FdQ.empty]
-      · simp only [upd_other _ _ _ _ hf]; exact hi.iour_reg hd fd
-    · intro x hx ok
-      rw [ho] at hx; obtain rfl := Option.some.inj hx
-      have hocc : (s.reg o.fd).occ id = qcount s.reg o' := by rw [hfd]; exact occ_eq_qcount hi ho
-      obtain ⟨h1, h2, h5, h6, h7, h8, h9⟩ := ok
-      have hle : (s.reg o.fd).occ id ≤ o'.cloneRef.rc := by
-        rw [hocc]; simp only [Op.cloneRef]; rw [h1]; unfold holders; omega
-      refine ⟨?_, (rcok_dropRefs (rcok_cloneRef h2 hrc) hle).congr rfl rfl rfl rfl, h5, h6, h7, h8, h9⟩
-      have hq0 : qcount (upd s.reg o.fd ((s.reg o.fd).remove id))
-          { (o'.cloneRef.dropRefs ((s.reg o.fd).occ id)) with chan := o'.chan ++ [ECANCELED] } = 0 := by
-        unfold qcount
-        simp only [Op.dropRefs, Op.cloneRef, ← hfd, upd_same, FdQ.sel_remove, count_filter_ne, hid, if_true]
-      simp only [holders, hq0]
-      simp only [Op.dropRefs, Op.cloneRef, holders, List.length_append, List.length_singleton] at h1 ⊢
-      rw [hocc]
-      omega
-
-theorem inv_driverCancel {c : Cfg} {s : State} (hi : Inv c s) (ha : s.alive = true) {id : Nat} {o o' : Op}
-    (ho : s.ops[id]? = some o') (hfd : o.fd = o'.fd) (hrc : 0 < o'.rc) : Inv c (driverCancel s id o) := by
-  unfold driverCancel
-  split
-  · exact inv_iourCancel hi id
-  · exact inv_pollCancel hi ha ho hfd hrc
-
-theorem driverCancel_user {s : State} {id : Nat} {o o'' : Op} (h : (driverCancel s id o).ops[id]? = some o'') :
-    ∃ o1, s.ops[id]? = some o1 ∧ o''.user = o1.user := by
-  unfold driverCancel iourCancel pollCancel at h
-  split at h
-  · split at h
-    all_goals
-      simp only [getElem?_modAt_self] at h
-      cases h1 : s.ops[id]? with
-      | none => simp [h1] at h
-      | some o1 => simp [h1] at h; exact ⟨o1, rfl, by rw [← h]⟩
-  · split at h
-    · exact ⟨o'', h, rfl⟩
-    · simp only [getElem?_modAt_self] at h
-      cases h1 : s.ops[id]? with
-      | none => simp [h1] at h
-      | some o1 => simp [h1] at h; exact ⟨o1, rfl, by rw [← h]; rfl⟩
-
-theorem driverCancel_alive (s : State) (id : Nat) (o : Op) :
-    (driverCancel s id o).alive = s.alive ∧ (driverCancel s id o).drv = s.drv := by
-  unfold driverCancel iourCancel pollCancel
-  split
-  · split <;> exact ⟨rfl, rfl⟩
-  · split <;> exact ⟨rfl, rfl⟩
-
-theorem inv_cancelIssue {c : Cfg} {s : State} (hi : Inv c s) (ha : s.alive = true) {id : Nat} {o : Op}
-    (ho : s.ops[id]? = some o) (hu : 0 < o.user) : Inv c (cancelIssue s id o) := by
-  unfold cancelIssue
-  have hi1 := inv_flag hi id
-  have ho1 : ({ s with ops := modAt (fun o => { o with cancelled := true }) s.ops id } : State).ops[id]?
-      = some { o with cancelled := true } := by
-    simp only [getElem?_modAt_self, ho, Option.map_some]
-  have hrc : 0 < o.rc := opok_rc_pos_of_user (hi.ops id o ho).1 hu
-  have hi2 := inv_driverCancel (o := o) hi1 ha ho1 rfl hrc
-  refine inv_modAt hi2 id _ rfl rfl rfl rfl rfl rfl rfl keeps_userDrop ?_
-  intro o'' ho'' ok
-  obtain ⟨o1, h1, h2⟩ := driverCancel_user ho''
-  rw [ho1] at h1; obtain rfl := Option.some.inj h1
-  exact ok_userDrop ok (by rw [h2]; exact hu)
-
-theorem inv_cancelKey {c : Cfg} {s : State} (hi : Inv c s) (ha : s.alive = true) {id : Nat} {o : Op}
-    (ho : s.ops[id]? = some o) (hu : 0 < o.user) : Inv c (cancelKey s id o) := by
-  unfold cancelKey
-  split
-  · refine inv_modAt hi id _ rfl rfl rfl rfl rfl rfl rfl keeps_userDrop ?_
-    intro o' ho' ok
-    rw [ho] at ho'; obtain rfl := Option.some.inj ho'
-    exact ok_userDrop ok hu
-  · split
-    · rename_i hq
-      refine inv_modAt hi id _ rfl rfl rfl rfl rfl rfl rfl
-        (keeps_congr (fun _ => rfl) (fun _ => rfl) (fun _ => rfl) (fun _ => rfl) (fun _ => rfl) (fun _ => rfl)) ?_
-      intro o' ho' ok
-      rw [ho] at ho'; obtain rfl := Option.some.inj ho'
-      exact ok_takeResult ok hu hq.1 true
-    · exact inv_cancelIssue hi ha ho hu
-
-theorem inv_userCancel {c : Cfg} {s s' : State} {id : Nat} (hi : Inv c s)
-    (h : step c s (.userCancel id) = some s') : Inv c s' := by
-  simp only [step] at h
-  split at h
-  · rename_i o ho
-    split at h
-    · rename_i hg
-      obtain rfl := Option.some.inj h
-      exact inv_cancelKey hi hg.1 ho hg.2
-    · cases h
-  · cases h
-
-/-- `key.clone()` / `token.upgrade()`: one more counted handle on the caller's side -/
-theorem inv_clone {c : Cfg} {s : State} (hi : Inv c s) {id : Nat} {o : Op} (ho : s.ops[id]? = some o) (hrc : 0 < o.rc) :
-    Inv c { s with ops := modAt (fun o => ({ o.cloneRef with user := o.user + 1 } : Op)) s.ops id } := by
-  refine inv_modAt hi id _ rfl rfl rfl rfl rfl rfl rfl
-    (keeps_congr (fun _ => rfl) (fun _ => rfl) (fun _ => rfl) (fun _ => rfl) (fun _ => rfl) (fun _ => rfl)) ?_
-  intro o' ho' ok
-  rw [ho] at ho'; obtain rfl := Option.some.inj ho'
-  obtain ⟨h1, h2, h5, h6, h7, h8, h9⟩ := ok
-  refine ⟨?_, (rcok_cloneRef h2 hrc).congr rfl rfl rfl rfl, h5, h6, h7, h8, h9⟩
-  simp only [Op.cloneRef, holders, qcount] at h1 ⊢
-  omega
-
-theorem inv_cloneCancel {c : Cfg} {s s' : State} {id : Nat} (hi : Inv c s)
-    (h : step c s (.cloneCancel id) = some s') : Inv c s' := by
-  simp only [step] at h
-  split at h
-  · rename_i o ho
-    split at h
-    · rename_i hg
-      obtain rfl := Option.some.inj h
-      have hrc := opok_rc_pos_of_user (hi.ops id o ho).1 hg.2
-      refine inv_cancelKey (inv_clone hi ho hrc) hg.1 ?_ (by show 0 < o.user + 1; omega)
-      simp only [getElem?_modAt_self, ho, Option.map_some]
-    · cases h
-  · cases h
-
-theorem ok_flag_userDrop {drv ring reg} {o : Op} (ok : OpOk drv ring reg o) (hu : 0 < o.user) :
-    OpOk drv ring reg ({ o with cancelled := true, user := o.user - 1 }.dropRef) := by
-  have hrc := opok_rc_pos_of_user ok hu
-  obtain ⟨h1, h2, h5, h6, h7, h8, h9⟩ := ok
-  refine ⟨?_, rcok_dropRef (h2.congr (o' := { o with cancelled := true, user := o.user - 1 }) rfl rfl rfl rfl) hrc,
-    h5, h6, h7, h8, h9⟩
-  simp only [Op.dropRef, Op.dropRefs, holders, qcount] at h1 ⊢
-  omega
-
-theorem inv_tokenCancel {c : Cfg} {s s' : State} {id : Nat} (hi : Inv c s)
-    (h : step c s (.tokenCancel id) = some s') : Inv c s' := by
-  simp only [step] at h
-  split at h
-  · rename_i o ho
-    split at h
-    · rename_i hg
-      split at h
-      · obtain rfl := Option.some.inj h; exact hi
-      · rename_i hrc0
-        obtain rfl := Option.some.inj h
-        have hrc : 0 < o.rc := by omega
-        have hi0 := inv_clone hi ho hrc
-        have ho0 : ({ s with ops := modAt (fun o => ({ o.cloneRef with user := o.user + 1 } : Op)) s.ops id } : State).ops[id]?
-            = some { o.cloneRef with user := o.user + 1 } := by
-          simp only [getElem?_modAt_self, ho, Option.map_some]
-        unfold cancelTok
-        split
-        · refine inv_modAt hi0 id _ rfl rfl rfl rfl rfl rfl rfl
-            (keeps_congr (fun _ => rfl) (fun _ => rfl) (fun _ => rfl) (fun _ => rfl) (fun _ => rfl) (fun _ => rfl)) ?_
-          intro o' ho' ok
-          rw [ho0] at ho'; obtain rfl := Option.some.inj ho'
-          exact ok_flag_userDrop ok (by show 0 < o.user + 1; omega)
-        · exact inv_cancelIssue hi0 hg.1 ho0 (by show 0 < o.user + 1; omega)
-    · cases h
-  · cases h
-
-/-! ### polling driver: submit and readiness -/
-
-theorem not_mem_queue_len {c : Cfg} {s : State} (hi : Inv c s) (fd : Nat) (d : Dir) :
-    ((s.reg fd).sel d).count s.ops.length = 0 := by
-  apply List.count_eq_zero.mpr
-  intro hm
-  obtain ⟨x, hx, _, _⟩ := hi.qmem fd d _ hm
-  have := (List.getElem?_eq_some_iff.mp hx).1
-  omega
-
-theorem inv_pushWait {c : Cfg} {s s' : State} {k : Kind} {fd : Nat} {d : Dir} (hi : Inv c s)
-    (h : step c s (.pushWait k fd d) = some s') : Inv c s' := by
-  simp only [step] at h
-  split at h
-  · rename_i hg
-    obtain rfl := Option.some.inj h
-    refine inv_append hi _ rfl rfl rfl rfl rfl rfl hg.1 rfl ?_ ?_ ?_ ?_
-    · -- the new op
-      have h0 := not_mem_queue_len hi fd d
-      refine ⟨?_, ⟨rfl, by simp [Op.new, Op.cloneRef], by simp [Op.new, Op.cloneRef]⟩, by simp [Op.new, Op.cloneRef],
-        by simp [Op.new, Op.cloneRef], by simp [Op.new, Op.cloneRef], by simp [Op.new, Op.cloneRef],
-        by simp [Op.new, Op.cloneRef]⟩
-      simp only [holders, qcount, Op.new, Op.cloneRef, upd_same, FdQ.sel_pushBack, if_true, count_append_one, h0]
-      simp
-    · intro j x hx
-      have hxid := (hi.ops j x hx).2
-      have hj : j < s.ops.length := (List.getElem?_eq_some_iff.mp hx).1
-      unfold qcount
-      by_cases hf : x.fd = fd
-      · simp only [hf, upd_same, FdQ.sel_pushBack]
-        split
-        · rw [count_append_one]
-          have : x.id ≠ s.ops.length := by omega
-          simp [this]
-        · rfl
-      · simp only [upd_other _ _ _ _ hf]
-    · intro fd' d' i hm
-      by_cases hf : fd' = fd
-      · subst hf
-        simp only [upd_same, FdQ.sel_pushBack] at hm
-        split at hm
-        · rename_i hd
-          rcases List.mem_append.mp hm with h1 | h1
-          · exact Or.inl h1
-          · simp at h1; exact Or.inr ⟨h1, rfl, hd.symm⟩
-        · exact Or.inl hm
-      · simp only [upd_other _ _ _ _ hf] at hm; exact Or.inl hm
-    · intro hd; rw [hg.2.1] at hd; cases hd
-  · cases h
-
-theorem inv_armed {c : Cfg} {s : State} (hi : Inv c s) (a : Nat → FdQ.Interest) : Inv c { s with armed := a } :=
-  ⟨hi.1, hi.2, hi.3, hi.4, hi.5, hi.6, hi.7⟩
-
-theorem inv_fdEvent {c : Cfg} {s s' : State} {fd : Nat} {rd wr : Bool} {r : Option Res} (hi : Inv c s)
-    (h : step c s (.fdEvent fd rd wr r) = some s') : Inv c s' := by
-  simp only [step] at h
-  split at h
-  · rename_i hg
-    split at h
-    · obtain rfl := Option.some.inj h; exact inv_armed hi _
-    · rename_i k d q' hpop
-      split at h
-      · obtain rfl := Option.some.inj h; exact inv_armed hi _
-      · rename_i v
-        obtain rfl := Option.some.inj h
-        obtain ⟨hsel, hoth⟩ := FdQ.popInterest_spec hpop
-        have hkm : k ∈ (s.reg fd).sel d := by rw [hsel]; simp
-        obtain ⟨ok0, hok0, hfd0, hdir0⟩ := hi.qmem fd d k hkm
-        have hid0 := (hi.ops k ok0 hok0).2
-        refine inv_modAt_reg hi hg.1 k _ rfl rfl rfl rfl rfl rfl (fun _ => ⟨rfl, rfl, rfl⟩) ?_ ?_ ?_ ?_
-        · intro j x hj hx
-          have hxid := (hi.ops j x hx).2
-          unfold qcount
-          by_cases hf : x.fd = fd
-          · simp only [hf, upd_same]
-            by_cases hd : x.dir = d
-            · rw [hd, hsel, List.count_cons]
-              have : ¬ (k = x.id) := by omega
-              simp [this]
-            · rw [hoth _ hd]
-          · simp only [upd_other _ _ _ _ hf]
-        · intro fd' d' i hm
-          by_cases hf : fd' = fd
-          · subst hf
-            simp only [upd_same] at hm
-            by_cases hd : d' = d
-            · subst hd; rw [hsel]; exact List.mem_cons_of_mem _ hm
-            · rw [hoth _ hd] at hm; exact hm
-          · simpa only [upd_other _ _ _ _ hf] using hm
-        · intro hd; rw [hg.2.1] at hd; cases hd
-        · intro x hx ok
-          rw [hok0] at hx; obtain rfl := Option.some.inj hx
-          obtain ⟨h1, h2, h5, h6, h7, h8, h9⟩ := ok
-          have hq1 : qcount s.reg ok0 = ((q'.sel d).count k) + 1 := by
-            unfold qcount; rw [hfd0, hdir0, hid0, hsel]; simp
-          have hq2 : qcount (upd s.reg fd q') ({ ok0 with result := some v, produced := ok0.produced ++ [v] }.dropRef)
-              = (q'.sel d).count k := by
-            unfold qcount
-            simp only [Op.dropRef, Op.dropRefs, hfd0, hdir0, hid0, upd_same]
-          have hrc : 0 < ok0.rc := by rw [h1]; unfold holders; omega
-          refine ⟨?_, rcok_dropRef (h2.congr (o' := { ok0 with result := some v, produced := ok0.produced ++ [v] })
-            rfl rfl rfl rfl) hrc, h5, h6, h7, h8, h9⟩
-          simp only [holders, hq2]
-          simp only [holders, hq1] at h1
-          simp only [Op.dropRef, Op.dropRefs]
-          omega
-  · cases h
-
 end Compio.KeyLife
